@@ -106,6 +106,16 @@ fn population(rng: &mut Rng, shape: Shape, ceiling: &'static str, classes: &[&'s
     v
 }
 
+/// A fixed population for the SEARCH over-fetch window: six hidden Concepts that outrank the one
+/// visible Concept for the term "delta".
+fn starvation_population() -> Vec<Elem> {
+    let mut v = vec![Elem { item: Item::Concept { ty: "Person", name: "delta anchor visible one".into(), alt: "delta anchor visible one".into(), rank: 1 }, label: "public", hidden: false }];
+    for i in 0..6 {
+        v.push(Elem { item: Item::Concept { ty: "Person", name: format!("delta delta h{i}"), alt: format!("omega omega h{i}"), rank: 2 }, label: "secret", hidden: true });
+    }
+    v
+}
+
 fn kind_of(item: &Item) -> anda_kip::ElementKind {
     match item {
         Item::Concept { .. } => anda_kip::ElementKind::Concept,
@@ -130,23 +140,26 @@ async fn build(name: &str, pop: &[Elem], include: &dyn Fn(usize) -> bool, pertur
     for (i, e) in pop.iter().enumerate() {
         if !include(i) { continue; }
         let alt = perturb && e.hidden;
+        let mut params = json!({});
         let cmd = match &e.item {
             Item::Concept { ty, name, alt: alt_name, rank } => format!(
                 r#"CREATE CONCEPT ?c {{ TYPE "{ty}" NAME "{}" SET ATTRIBUTES {{rank: {}, nickname: "{}"}} }}"#,
                 if alt { alt_name } else { name }, if alt { 9 - rank } else { *rank }, if alt { "zz" } else { "nn" }),
             Item::Prop { subj, obj } => {
                 let (Some(s), Some(o)) = (ids.get(subj), ids.get(obj)) else { return Err(format!("dangling proposition {i}")) };
-                format!(r#"ENSURE PROPOSITION ?p ({{id: "{s}"}}, "prefers", {{id: "{o}"}})"#)
+                params = json!({"s": s.to_string(), "o": o.to_string()});
+                r#"ENSURE PROPOSITION ?p (:s, "prefers", :o)"#.to_string()
             }
             Item::Evidence { payload, alt: alt_payload } => format!(
                 r#"CREATE EVIDENCE ?e {{ SET FIELDS {{evidence_class: "Document", payload: "{}"}} }}"#, if alt { alt_payload } else { payload }),
             Item::Assertion { prop, by, ev, conf } => {
                 let (Some(p), Some(b), Some(v)) = (ids.get(prop), ids.get(by), ids.get(ev)) else { return Err(format!("dangling assertion {i}")) };
-                format!(r#"CREATE ASSERTION ?a {{ SET FIELDS {{proposition: "{p}", asserted_by: {{id: "{b}"}}, stance: "support", mode: "stated", confidence: {}}} SET STRUCTURAL {{ ("evidence", {{id: "{v}"}}) {{role: "support"}} }} }}"#,
+                params = json!({"p": p.to_string(), "b": b.to_string(), "v": v.to_string()});
+                format!(r#"CREATE ASSERTION ?a {{ SET FIELDS {{proposition: :p, asserted_by: :b, stance: "support", mode: "stated", confidence: {}}} SET STRUCTURAL {{ ("evidence", :v) {{role: "support"}} }} }}"#,
                         if alt { 1.0 - conf } else { *conf })
             }
         };
-        let r = run_as(&owner, &cmd).await?;
+        let r = run_params(&owner, &cmd, params).await?;
         let code = error_code(&r);
         if !code.is_empty() { return Err(format!("population command failed: {cmd} -> {code} {:?}", r.error)); }
         let kind = kind_of(&e.item);
@@ -225,6 +238,8 @@ fn battery(rng: &mut Rng, pop: &[Elem], s: &Built) -> Vec<(String, bool, bool)> 
         (format!(r#"SEARCH CONCEPT "{w2}" LIMIT 1"#), true, true),
         (format!(r#"SEARCH COGNITION "{w}" LIMIT 2"#), true, true),
         (r#"SEARCH EVIDENCE "note""#.into(), true, true),
+        (r#"SEARCH CONCEPT "delta" LIMIT 1"#.into(), true, true),
+        (r#"SEARCH CONCEPT "delta""#.into(), true, true),
         ("DESCRIBE PRIMER".into(), true, false),
         ("HISTORY SPACE".into(), true, false),
         ("HISTORY SPACE LIMIT 3".into(), true, false),
@@ -277,7 +292,7 @@ fn canon(v: &Value, names: &BTreeMap<String, String>, strip_scores: bool) -> Val
             for (k, x) in m {
                 let kl = k.to_ascii_lowercase();
                 if kl.contains("seq") || kl == "tx_id" || kl.ends_with("_at") || kl == "at" || kl.contains("digest") || kl.contains("token")
-                    || kl == "capsule_id" || kl == "exported_at" || kl == "created" || kl == "version_id"
+                    || kl == "capsule_id" || kl == "nexus_id" || kl == "exported_at" || kl == "created" || kl == "version_id"
                     || (strip_scores && kl == "score") {
                     out.insert(k.clone(), json!("<>"));
                 } else if kl == "next_cursor" {
@@ -352,11 +367,12 @@ pub async fn main(args: &[String]) {
     let mut skip_reasons: Vec<String> = Vec::new();
     let shapes = [Shape::Ceiling, Shape::Classes, Shape::Kinds, Shape::PolicyAllow, Shape::Masked, Shape::Capped];
 
-    for sc in 0..scenarios {
-        let shape = shapes[sc % shapes.len()];
-        let ceiling: &'static str = *rng.pick(&["public", "internal", "private"]);
+    for sc in 0..scenarios + 1 {
+        let fixed = sc == 0;
+        let shape = if fixed { Shape::Ceiling } else { shapes[sc % shapes.len()] };
+        let ceiling: &'static str = if fixed { "public" } else { *rng.pick(&["public", "internal", "private"]) };
         let classes: Vec<&'static str> = if rng.chance(1, 2) { vec!["public", "internal"] } else { vec!["public"] };
-        let pop = population(&mut rng, shape, ceiling, &classes);
+        let pop = if fixed { starvation_population() } else { population(&mut rng, shape, ceiling, &classes) };
         *dist.entry(format!("shape:{shape:?}")).or_default() += 1;
         let s = match build(&format!("c19_ni_{sc}_s"), &pop, &|_| true, false).await { Ok(b) => b, Err(e) => { skipped += 1; skip_reasons.push(e.clone()); *dist.entry(format!("skipped:{}", e.split(':').next().unwrap_or(""))).or_default() += 1; continue } };
         authorize_p(&s.nexus, shape, ceiling, &classes).await;
